@@ -175,3 +175,49 @@ fn rearming_to_an_unrepresentable_deadline_cancels_the_pending_one() {
     assert_eq!(log.len(), 1);
     check_never_early(&log);
 }
+
+#[test]
+fn timers_inserted_while_expired_timers_are_still_being_dispatched_all_fire_once() {
+    // two one-shot timers are due in the same dispatch (both already popped from the wheel when the callbacks run);
+    // the first is dropped, the second inserts two new timers and is dropped as well: dropping a timer whose entry
+    // is no longer in the wheel must not disturb the timers armed meanwhile
+    let mut el: EventLoop<'static, Log> = EventLoop::try_new().unwrap();
+    let h = el.handle();
+    let now = Instant::now();
+    h.insert_source(Timer::from_deadline(now), |dl, _, log: &mut Log| { log.push((1, dl, Instant::now())); TimeoutAction::Drop }).unwrap();
+    let h2 = h.clone();
+    h.insert_source(Timer::from_deadline(now + Duration::from_millis(1)), move |dl, _, log: &mut Log| {
+        log.push((2, dl, Instant::now()));
+        for id in [3u8, 4u8] {
+            h2.insert_source(Timer::from_duration(Duration::from_millis(30)), move |dl, _, log: &mut Log| { log.push((id, dl, Instant::now())); TimeoutAction::Drop }).unwrap();
+        }
+        TimeoutAction::Drop
+    }).unwrap();
+    std::thread::sleep(Duration::from_millis(5));
+    let mut log = Log::default();
+    run_for(&mut el, &mut log, Duration::from_millis(150));
+    let mut ids: Vec<u8> = log.iter().map(|e| e.0).collect();
+    ids.sort();
+    assert_eq!(ids, vec![1, 2, 3, 4], "every arming fires exactly once");
+    check_never_early(&log);
+    // and a repeating timer keeps ticking when a timer armed during its dispatch is removed later
+    let mut el: EventLoop<'static, Log> = EventLoop::try_new().unwrap();
+    let h = el.handle();
+    let h2 = h.clone();
+    let wd: std::rc::Rc<std::cell::Cell<Option<calloop::RegistrationToken>>> = Default::default();
+    let wd2 = wd.clone();
+    h.insert_source(Timer::from_duration(Duration::from_millis(5)), move |dl, _, log: &mut Log| {
+        log.push((1, dl, Instant::now()));
+        if wd2.get().is_none() {
+            wd2.set(Some(h2.insert_source(Timer::from_duration(Duration::from_secs(3600)), |_, _, _| TimeoutAction::Drop).unwrap()));
+        }
+        TimeoutAction::ToDuration(Duration::from_millis(10))
+    }).unwrap();
+    let mut log = Log::default();
+    run_for(&mut el, &mut log, Duration::from_millis(40));
+    let before = log.len();
+    assert!(before >= 2);
+    h.remove(wd.get().unwrap());
+    run_for(&mut el, &mut log, Duration::from_millis(60));
+    assert!(log.len() >= before + 3, "removing another timer stopped the repeating one ({} -> {})", before, log.len());
+}
